@@ -124,7 +124,7 @@ def _impl(case):
     return H.run_case({k: v for k, v in case.items() if not k.startswith("_")})
 
 
-CTL = C.Kind("control_breeze_device", impl=_impl, model=_model, judge=_judge,
+CTL = C.Kind("control_breeze_device", impl=_impl, model=_model, judge=_judge, compare=H.same("class"),
              classify=lambda c, o: f"upd{c['req']['upd']}:fault{c.get('_fault')}:{H.outcome_of(o).split()[0] if not H.outcome_of(o).startswith('raise') else H.outcome_of(o)}:{len(H.frames_of(o))}f",
              nontrivial=_nt)
 KINDS = {"control_breeze_device": CTL}
